@@ -25,7 +25,12 @@ NAMES2 = {(1, 2): bytes(P + [4, 0x81, 0x00]), (1, 3): bytes(P + [5]), (1, 3, 1):
 Q = [43, 6, 1, 2, 1, 127, 0x81, 0x00, 0xFF, 0x7F]
 NAMES3 = {(1, 2): bytes(Q + [4]), (1, 3): bytes(Q + [5]), (1, 3, 1): bytes(Q + [5, 127]), (1, 3, 2): bytes(Q + [5, 0x81, 0x00]), (1, 4): bytes(Q + [6])}
 BASE3_TEXT = "1.3.6.1.2.1.127.128.16383.5"
-UNIVERSES = [(BASE_TEXT, NAMES), (BASE_TEXT, NAMES2), (BASE3_TEXT, NAMES3)]
+# a fourth one whose in-subtree names are LONG: 70 arcs of 300 / 25 arcs of 2^32-1 (142 / 127 content octets; a name may have 128 arcs
+# of up to 2^32-1, i.e. up to 636 content octets - limits counted in arcs are not limits in octets)
+LONG_A = [0x82, 0x2C] * 70
+LONG_B = [0x8F, 0xFF, 0xFF, 0xFF, 0x7F] * 25
+NAMES4 = {(1, 2): bytes(P + [4]), (1, 3): bytes(P + [5]), (1, 3, 1): bytes(P + [5] + LONG_A + [1]), (1, 3, 2): bytes(P + [5] + LONG_A + [2] + LONG_B), (1, 4): bytes(P + [6])}
+UNIVERSES = [(BASE_TEXT, NAMES), (BASE_TEXT, NAMES2), (BASE3_TEXT, NAMES3), (BASE_TEXT, NAMES4)]
 NU = len(UNIVERSES)
 
 
@@ -159,6 +164,7 @@ def run(tier):
     runs += asyncio.run(run_async(rec, std["v2c"], items, 0))
     runs += asyncio.run(run_async(rec, std["v2c"], items if thorough else items[::2], 1))      # the other universes
     runs += asyncio.run(run_async(rec, std["v2c"], items if thorough else items[1::2], 2))
+    runs += asyncio.run(run_async(rec, std["v2c"], items if thorough else items[::3], 3))
     pick = lambda n, off: [x for i, x in enumerate(items) if thorough or (i + off + SEED) % n == 0]
     runs += run_sync(rec, std["v2c"], pick(3, 0))
     runs += run_sync(rec, std["v1"], [x for x in pick(6, 1) if x[0] == "getnext"])
